@@ -28,4 +28,17 @@ TEXTS = {
                       "hash, negation witnesses proved in Lean and replayed on the implementation on every run. Hand-written validators: "
                       "differential only (not a theorem about the Rust code).",
     },
+    "C20": {
+        "design_ref": "DESIGN.md §8 C20",
+        "technique": "Lean 4 theorems about an executable model of chardata.rs and the std conversions it uses; differential run of "
+                     "the model against the library over the lexical forms, all integer widths and all f64 bit classes",
+        "level_text": "Proved for all inputs: unescape(escape s) = s for every byte string; parse(to_string n) = n for the whole u64 range; "
+                      "for every text of the AUTOSAR integer lexical forms (defined independently of the parser) and every signedness/width, "
+                      "parse_integer returns the denoted number iff it fits and never another number; parse_bool accepts exactly the four "
+                      "texts; the rounding core (nearest, ties to even). Float parsing/printing is partial: modelled with exact rational "
+                      "arithmetic and compared with the library (0 disagreements on 2.5M requests), not proved about std.",
+        "level_note": "Trusted: Lean kernel; axioms propext, Classical.choice, Quot.sound; the hand model is tied to chardata.rs only by the "
+                      "correspondence run. Known finding: parse_float returns None for radix-form texts above u64::MAX (negation witness "
+                      "proved, replayed on every run).",
+    },
 }
